@@ -1,6 +1,6 @@
 (* Extract/Extract.v — extraction of the executable models and specifications to OCaml.
    ExtrOcamlBasic only: ascii, nat, N, Z, positive stay the extracted inductives. *)
-From CV Require Import Base.Str Model.ShellValue Spec.FmtOracle Run.Fields Run.RunMultiParts.
+From CV Require Import Base.Str Model.ShellValue Spec.FmtOracle Run.Fields Run.RunMultiParts Run.RunAlgebra.
 Require Import ExtrOcamlBasic.
 
 Definition n_value := B [118;97;108;117;101].                           (* value *)
@@ -13,7 +13,9 @@ Definition runners : list (str * (list str -> list str)) :=
     (n_fmt_oracle, run_fmt_oracle);
     (n_fdecode, run_fdecode);
     (B [109;117;108;116;105;112;97;114;116;115], run_multiparts);                                      (* multiparts *)
-    (B [109;117;108;116;105;112;97;114;116;115;95;111;114;97;99;108;101], run_multiparts_oracle)       (* multiparts_oracle *)
+    (B [109;117;108;116;105;112;97;114;116;115;95;111;114;97;99;108;101], run_multiparts_oracle);      (* multiparts_oracle *)
+    (B [97;108;103;101;98;114;97], run_algebra);                                                       (* algebra *)
+    (B [97;108;103;101;98;114;97;95;111;114;97;99;108;101], run_algebra_oracle)                        (* algebra_oracle *)
   ].
 
 Fixpoint lookup_runner (name : str) (t : list (str * (list str -> list str))) : option (list str -> list str) :=
